@@ -1,10 +1,11 @@
 From Coq Require Import List NArith Bool Arith.
-From AMV Require Import Base.ListSet Model.Schema Model.Machine Run.EvalHist Spec.C05 Spec.C05b Spec.C05d.
+From AMV Require Import Base.ListSet Model.Schema Model.Machine Run.EvalHist Spec.C05 Spec.C05b Spec.C05d Spec.C05e.
 From AMV Require Export Spec.C05d.
 Import ListNotations.
 Definition violations (k : hcase) : list N :=
   nodup N.eq_dec (c05_codes (h_schema k) (h_topo k) (h_bindings k) (h_obs k)
-                  ++ c05b_codes (h_schema k) (h_topo k) (h_bindings k) (h_obs k)).
+                  ++ c05b_codes (h_schema k) (h_topo k) (h_bindings k) (h_obs k)
+                  ++ c05e_codes (h_bindings k) (h_obs k)).
 Inductive c05case := C05H (k : hcase) | C05D (d : dcase).
 
 Definition check_all (cs : list (N * c05case)) : list (N * N * N) :=
